@@ -153,6 +153,14 @@ func generate() []session {
 		}
 	}
 
+	for k := 0; k < 2; k++ {
+		for _, tlsOn := range []bool{false, true} {
+			add("tunnel-reset", nil)
+			o := &out[len(out)-1]
+			o.Proto, o.TLS, o.Seed = "http", tlsOn, int64(100+k)
+		}
+	}
+
 	// 3. sampled pairs of mutations
 	n := run.Pick(150, 8000)
 	for i := 0; i < n; i++ {
